@@ -136,6 +136,26 @@ CHECKS["C05"] = dict(
          "C06's subject, which is not claimed).",
 )
 
+CHECKS["C08"] = dict(
+    engine="sbvm-t+sbvm",
+    technique="bounded model checking (z3): the real InotifyBuffer.run/_group_events and DelayedQueue.put/remove executed "
+              "symbolically over a scripted Inotify; (A) the reader alone, sequentially, for every native sequence and "
+              "every cutting into read batches; (B) reader and consumer threads under the symbolic scheduler and clock for "
+              "two small fixed sequences",
+    level=("model_checking",
+           "(A) For every sequence of 4 (thorough: 5) native events over {FROM/TO of two cookies, two other events} obeying "
+           "the kernel's cookie contract and every way of cutting it into read batches, with nothing consumed meanwhile: "
+           "each native event is handed on exactly once, alone or as one half of one pair; both halves of a rename are "
+           "always paired (same batch or across batches); pairs carry one cookie, FROM first; only an unmatched FROM is "
+           "delayed; events handed on alone keep kernel order. (B) For all interleavings and clock readings within K "
+           "steps of reader and consumer on one ordinary event (thorough: one rename in one batch): exactly-once delivery, "
+           "no deadlock. The cross-batch pairing race with a sleeping consumer and the expiry boundary are NOT decided "
+           "(outside the bound; see DESIGN.md 0.3).", "DESIGN.md section 9, C08"),
+    note="Trusted: the scripted Inotify stand-in, threading/time models, VM semantics (sequential counterexamples are "
+         "replayed natively against the real InotifyBuffer), z3. This is a partial decision of C08: the sequential pairing "
+         "logic for all inputs, and thread interleavings only for the smallest programs.",
+)
+
 CHECKS["C17"] = dict(
     engine="sbvm-t",
     technique="bounded model checking (z3): the real DelayedQueue bytecode executed symbolically by producer/consumer/"
@@ -245,10 +265,6 @@ NA = {
            "interesting program and its encoding did not finish building within an hour; deadlock freedom of the parts is "
            "covered where it could be encoded (C12 close/read, C17 delayed queue, C18 debouncer). Liveness of the whole "
            "observer is outside the reach of the bounded encoding available here.",
-    "C08": "Attempted (vf/props/c08.py): InotifyBuffer.run + _group_events + DelayedQueue with reader, consumer and closer "
-           "threads under the symbolic scheduler and clock; the encoding of the smallest program with a cross-batch rename "
-           "pair did not finish building. The delay-queue guarantees it rests on are decided by C17, the sequential "
-           "grouping of one batch is exercised by the history checks (C01-C03, C07, C19).",
     "C20": "The Windows and FSEvents emitters import platform libraries (ctypes.windll / _watchdog_fsevents) that cannot be "
            "loaded on this Linux image, and their decoders work on raw memory through ctypes (cast/addressof/string_at), "
            "which the symbolic VM cannot interpret and CrossHair realises; no symbolic encoding of that code was within "
